@@ -49,6 +49,11 @@ def tree():
         "inc/api.h": "/* api */\nint api_fn(int a)\n{\n" + "    a = a + 1;\n" * 40 + "    return a;\n}\n",
         "BUILD": py("build_rule", 33),
         "LICENSE": "def not_code():\n" + "    x = 1\n" * 40,
+        # the same kinds of name one level down (visited after the root's extension-less files in every walk) ...
+        "tools/BUILD": py("tool_rule", 35),
+        "tools/Makefile": "all:\n\techo not code\n",
+        # ... and a folder name that is markup to a rich-text renderer (Next.js / SvelteKit dynamic routes)
+        "app/[id]/route.js": js("routeJs", 47),
         # a file that is nothing but one 31-line function, last line not newline-terminated (file-size shortcuts misjudge it)
         "bare31.py": py("bare_fn", 31).rstrip("\n"),
         "src/bare31.js": js("bareJs", 31).rstrip("\n"),
